@@ -44,6 +44,24 @@ func init() {
 		mods := []string{}
 		factsOK := false
 		switch id {
+		case "C01":
+			mods = []string{"Verif.Properties.C01"}
+		case "C02":
+			mods = []string{"Verif.Properties.C02"}
+		case "C03":
+			mods = []string{"Verif.Properties.C03"}
+			factsOK = true
+		case "C04":
+			mods = []string{"Verif.Properties.C01", "Verif.Properties.C02", "Verif.Properties.C03"}
+		case "C05":
+			mods = []string{"Verif.Properties.C01", "Verif.Properties.C02"}
+		case "C06":
+			mods = []string{"Verif.Properties.C06", "Verif.Properties.C02"}
+		case "C07":
+			mods = []string{"Verif.Properties.C07"}
+			factsOK = true
+		case "C09":
+			mods = []string{"Verif.Properties.C06", "Verif.Properties.C20", "Verif.Properties.C03"}
 		case "C10":
 			mods = []string{"Verif.Properties.C10"}
 			factsOK = true
